@@ -56,6 +56,11 @@ func (m *expirationMap[_]) add(key, conflict uint64, expiration time.Time) {
 	m.Lock()
 	defer m.Unlock()
 
+	// The item might be added after its bucket was already cleaned up, e.g. when the set buffer was
+	// backed up. That bucket is never looked at again, so use the next one to be cleaned up.
+	if bucketNum <= m.lastCleanedBucketNum {
+		bucketNum = m.lastCleanedBucketNum + 1
+	}
 	b, ok := m.buckets[bucketNum]
 	if !ok {
 		b = make(bucket)
@@ -84,6 +89,9 @@ func (m *expirationMap[_]) update(key, conflict uint64, oldExpTime, newExpTime t
 	}
 
 	newBucketNum := storageBucket(newExpTime)
+	if newBucketNum <= m.lastCleanedBucketNum {
+		newBucketNum = m.lastCleanedBucketNum + 1
+	}
 	newBucket, ok := m.buckets[newBucketNum]
 	if !ok {
 		newBucket = make(bucket)
